@@ -30,7 +30,7 @@ ALLOW = os.path.join(VERIF, 'trusted_allowlist.txt')
 MINIMUMS = os.path.join(VERIF, 'units', 'minimums.json')
 
 # properties whose witness search is deterministic (no timing, no socket-buffer dependence)
-WITNESS_FALLBACK = ('C01', 'C02', 'C03', 'C04', 'C05', 'C06', 'C11', 'C12', 'C13', 'C16', 'C17')
+WITNESS_FALLBACK = ('C01', 'C02', 'C03', 'C04', 'C05', 'C06', 'C11', 'C12', 'C13', 'C14', 'C15', 'C16', 'C17')
 
 TRUST_PATTERNS = [r'\bassume\s*\(', r'\badmit\s*\(', r'external_body', r'assume_specification',
                   r'external_type_specification', r'external_trait_specification', r'\buninterp\b',
@@ -68,6 +68,8 @@ def scan_trusted(g):
                         break
                 kind = re.search(pat, code).group(0).strip('( ')
                 owner = g.map[i].get('fn') or ''
+                if owner in getattr(g, 'demoted', []):
+                    break   # reported separately (body outside the subset on this tree), not part of the committed trusted base
                 found.append('%s %s%s' % (kind, name or '?', (' [' + owner + ']') if owner and owner != name else ''))
                 break
     # de-duplicate keeping order
@@ -168,11 +170,12 @@ def canary_check(unit, seed, tier, repo):
     r = unitrun.run_unit(unit, repo=repo, canary=set(c for c in chosen if not c.startswith('lemma:')), suffix='_canary', max_rounds=1,
                          rlimit=config.UNIT_RLIMIT.get(unit, 40), post=plant)
     caught = sorted(set(f['fn'] for f in r.failures if f['kind'] == 'canary'))
+    chosen = [c for c in chosen if c not in (getattr(r, 'demoted', None) or {})]
     return dict(unit=unit, planted=len(chosen), caught=len(caught), ok=set(caught) == set(chosen),
                 fns=chosen, missed=sorted(set(chosen) - set(caught)))
 
 
-ALL_UNITS = ['conn', 'lemmas', 'oneshot', 'request', 'client', 'response', 'router']
+ALL_UNITS = ['conn', 'lemmas', 'oneshot', 'request', 'client', 'response', 'router', 'headers']
 
 
 def inventory():
@@ -325,9 +328,9 @@ def main():
             for fid in r.g.fns:
                 shaky.add((u, fid))
             stale_notes.append('%s: definition of %s changed shape' % (u, ', '.join(stale_items)))
-            # the abstraction function was written for the old definition: nothing proved over it can be
-            # trusted to cover the new state, so the unit cannot certify the property either
-            undecided.append('%s: extraction: the definition of %s changed shape; the abstract view may no longer cover the state' % (u, ', '.join(stale_items)))
+            # Contracts are stated over the abstract view; state the view does not mention is universally
+            # quantified in every obligation, so obligations that still verify remain valid for the new
+            # definition.  Only FAILURES are ambiguous (the view may be stale): the functions are shaky.
         for fid, info in r.g.fns.items():
             b = shape_base.get('__sigs__', {}).get(info['path'])
             if b and info.get('sig_shape') and b != info['sig_shape']:
@@ -374,12 +377,20 @@ def main():
                 continue   # the loop is gone: its invariant is moot, nothing that remains depends on it
             fn_of = r.g.clauses[cid]['fn'] if cid in r.g.clauses else cid.split('.rewrite.')[0].rsplit('.', 1)[0] if '.rewrite.' not in cid else cid.split('.rewrite.')[0]
             shaky.add((u, fn_of))
+        for fid, why in (getattr(r, 'demoted', None) or {}).items():
+            mine = [cid for cid, c in r.g.clauses.items() if c['fn'] == fid and prop in c['tags']]
+            if mine:
+                undecided.append('%s: tool/compile error: the body of %s is outside the verifier\'s subset on this tree, so its obligations %s could not be checked (%s)'
+                                 % (u, fid, sorted(mine)[:6], why[:300]))
+            else:
+                stale_notes.append('%s: %s left unverified (outside the subset); none of its clauses carries %s' % (u, fid, prop))
         for (fn, mode, ms, ok) in r.funcs:
             if mode in ('exec', 'proof'):
                 obligations += 1
                 discharged += 1 if ok else 0
                 solver_ms['%s:%s' % (u, fn.split('::', 1)[-1])] = ms
         nver = len([1 for x in r.funcs if x[1] in ('exec', 'proof')])
+        nver += len(getattr(r, 'demoted', None) or {})
         if r.status != 'undecided' and nver < minimums.get(u, 1):
             undecided.append('%s: only %d functions were verified, committed minimum is %d (vacuity guard)' % (u, nver, minimums.get(u, 1)))
         for fid, info in r.g.fns.items():
@@ -435,13 +446,23 @@ def main():
 
     # An obligation that fails in a function whose proof hints no longer fit the code (renamed locals,
     # restructured statements) proves nothing: the proof script, not the property, may be what broke.
-    ambiguous = [v for v in violations if (v.get('unit'), v.get('fn')) in shaky]
-    violations = [v for v in violations if (v.get('unit'), v.get('fn')) not in shaky]
+    def secondary_for_prop(v):
+        # the clause is PRIMARY for another property and only used by this one's proof (tags after ';'):
+        # its failure shows that the proof of this property no longer goes through, not that the property is broken
+        g_ = results[v['unit']].g if v.get('unit') in results else None
+        c_ = g_.clauses.get(v['clause']) if g_ else None
+        return bool(c_ and prop in c_.get('secondary', []))
+    is_amb = lambda v: (v.get('unit'), v.get('fn')) in shaky or secondary_for_prop(v)
+    ambiguous = [v for v in violations if is_amb(v)]
+    violations = [v for v in violations if not is_amb(v)]
     amb_wit = None
     if ambiguous and not violations:
         amb_wit = witness(prop, ambiguous[0]['clause'], tier) if prop in WITNESS_FALLBACK else None
         if amb_wit and amb_wit.get('status') == 'found':
             violations = ambiguous      # confirmed on the real code by a concrete failing input
+        elif all(secondary_for_prop(v) and (v.get('unit'), v.get('fn')) not in shaky for v in ambiguous):
+            undecided.append('obligations %s fail; they carry another property and are only used by the proof of %s; the bounded witness search for %s found no failing input, so %s is neither proved nor shown broken on this tree: undecided, not an alarm'
+                             % (sorted(set(v['clause'] for v in ambiguous)), prop, prop, prop))
         else:
             undecided.append('obligations %s fail, but the proof script of %s no longer fits the code (lost anchors / renamed locals / %s) and the bounded witness search found no failing input: undecided, not an alarm'
                              % (sorted(set(v['clause'] for v in ambiguous)), sorted(set(str(v.get('fn')) for v in ambiguous)), '; '.join(stale_notes) or 'no shape change'))
